@@ -1884,6 +1884,11 @@ func (fr *Frame) value(v ssa.Value) Val {
 		fr.boundRef(vv)
 		return Val{Tuple: []Val{{T: ok, Ty: types.Typ[types.Bool]}, k, vv}, Ty: x.Type()}
 	case *ssa.Select:
+		if fr.spec != nil && fr.spec.Attrs["blocking-select"] {
+			// `attr blocking-select`: every select of the function waits for one of its cases (no default branch that
+			// would let it fall through without having sent or received)
+			fr.oblige("select", "blocking", boolSMT(x.Blocking))
+		}
 		for _, st := range x.States {
 			if st.Dir == types.SendOnly && st.Send != nil {
 				fr.assertAtSend(fr.val(st.Chan), fr.val(st.Send))
